@@ -334,6 +334,11 @@ Fixpoint eval (e : oexpr) (x : list T) : list T :=
    a nested OperatorLeftScalarMult:  scalar = s * op.scalar ; operator = op.operator *)
 Definition mk_lscal (s : T) (e : oexpr) : oexpr :=
   match e with OLScal a s' => OLScal a (s * s') | _ => OLScal e s end.
+(* op * s (Operator.__mul__(Number)): a linear op with s in its range's field is rewritten to s * op;
+   otherwise OperatorRightScalarMult(op, s), whose __init__ merges a nested OperatorRightScalarMult *)
+Definition mk_mulscal (s : T) (e : oexpr) : oexpr :=
+  if is_lin e then mk_lscal s e
+  else match e with ORScal a s' => ORScal a (s * s') | _ => ORScal e s end.
 (* y * op for y = other(x) in op.range: a Number when the range is the field
    (-> OperatorLeftScalarMult), an element otherwise (-> OperatorLeftVectorMult) *)
 Definition mk_lmul (r : space) (y : list T) (e : oexpr) : oexpr :=
@@ -379,11 +384,11 @@ Fixpoint derivative (e : oexpr) (x : list T) : oexpr :=
       if is_lin a && is_lin b then e
       else OComp (if is_lin a then a else derivative a (eval b x)) (derivative b x)
   | OPProd a b =>
-      OSum (mk_lmul (ran a) (eval b x) (derivative a x)) (mk_lmul (ran a) (eval a x) (derivative b x))
+      OSum (mk_lmul (ran b) (eval b x) (derivative a x)) (mk_lmul (ran a) (eval a x) (derivative b x))
   | OLScal a s => if is_lin a then e else mk_lscal s (derivative a x)
-  (* op'(s x) * s : the derivative object is linear, so Operator.__mul__(Number) rewrites it to
-     s * op'(s x), i.e. OperatorLeftScalarMult (with its merging) *)
-  | ORScal a s => mk_lscal s (derivative a (vscal s x))
+  (* op'(s x) * s : the derivative object is linear (proved), so Operator.__mul__(Number) rewrites
+     it to s * op'(s x), i.e. OperatorLeftScalarMult (with its merging) *)
+  | ORScal a s => mk_mulscal s (derivative a (vscal s x))
   | OLVec a v => if is_lin a then e else OLVec (derivative a x) v
   | ORVec a v => if is_lin a then e else ORVec (derivative a (vmul v x)) v
   | OFLVec a v => if is_lin a then e else OFLVec (derivative a x) v
